@@ -614,11 +614,13 @@ class VLE(Equilibrium, phases='lg'):
         split_frac = (self._z[0]-x[0])/(y[0]-x[0])
         if not -0.00001 < split_frac < 1.00001:
             raise InfeasibleRegion('phase composition')
-        if split_frac > 1:
-            split_frac = 1
-        elif split_frac < 0:
-            split_frac = 0
-        self._vapor_mol[self._index] = v = self._F_mol * split_frac * y
+        if split_frac >= 1:
+            v = self._mol_vle.copy() # All vapor
+        elif split_frac <= 0:
+            v = 0. * self._mol_vle # All liquid
+        else:
+            v = self._F_mol * split_frac * y
+        self._vapor_mol[self._index] = v
         self._liquid_mol[self._index] = self._mol_vle - v
     
     def set_Tx(self, T, x):
